@@ -1,6 +1,7 @@
 -- Root of the `TgModel` library: models, lemmas and one property file per claimed property.
 import TgModel.Props.C01
 import TgModel.Props.C02
+import TgModel.Props.C06
 import TgModel.Props.C10
 import TgModel.Props.C15
 import TgModel.Props.C16
